@@ -19,17 +19,13 @@ type opFn struct {
 	f    func(s, c clip.Paths64, sd, cd clip.PathsD) any
 }
 
-func treeSig(t *clip.PolyPathBase) string {
-	s := fmt.Sprint(t.Polygon(), t.IsHole(), "(")
-	for _, ch := range t.GetChildren() {
-		s += treeSig(ch)
-	}
-	return s + ")"
-}
-
 var raceOps = []opFn{
-	{"BooleanOpPaths64/Union", func(s, c clip.Paths64, sd, cd clip.PathsD) any { return clip.BooleanOpPaths64(clip.Union, s, c, clip.NonZero) }},
-	{"BooleanOpPaths64/Xor", func(s, c clip.Paths64, sd, cd clip.PathsD) any { return clip.BooleanOpPaths64(clip.Xor, s, c, clip.EvenOdd) }},
+	{"BooleanOpPaths64/Union", func(s, c clip.Paths64, sd, cd clip.PathsD) any {
+		return clip.BooleanOpPaths64(clip.Union, s, c, clip.NonZero)
+	}},
+	{"BooleanOpPaths64/Xor", func(s, c clip.Paths64, sd, cd clip.PathsD) any {
+		return clip.BooleanOpPaths64(clip.Xor, s, c, clip.EvenOdd)
+	}},
 	{"Clipper64 object", func(s, c clip.Paths64, sd, cd clip.PathsD) any {
 		cl := clip.NewClipper64()
 		cl.AddPaths(s, clip.Subject, false)
@@ -42,9 +38,15 @@ var raceOps = []opFn{
 	{"BooleanOpPolyTree64", func(s, c clip.Paths64, sd, cd clip.PathsD) any {
 		return treeSig(clip.BooleanOpPolyTree64(clip.Union, s, c, clip.NonZero).PolyPathBase)
 	}},
-	{"BooleanOpPathsD", func(s, c clip.Paths64, sd, cd clip.PathsD) any { return clip.BooleanOpPathsD(clip.Difference, sd, cd, clip.NonZero, 3) }},
-	{"InflatePaths64/round", func(s, c clip.Paths64, sd, cd clip.PathsD) any { return clip.InflatePaths64(s, 3.5, clip.Round, clip.Polygon) }},
-	{"InflatePaths64/open", func(s, c clip.Paths64, sd, cd clip.PathsD) any { return clip.InflatePaths64(c, 2, clip.Square, clip.Butt) }},
+	{"BooleanOpPathsD", func(s, c clip.Paths64, sd, cd clip.PathsD) any {
+		return clip.BooleanOpPathsD(clip.Difference, sd, cd, clip.NonZero, 3)
+	}},
+	{"InflatePaths64/round", func(s, c clip.Paths64, sd, cd clip.PathsD) any {
+		return clip.InflatePaths64(s, 3.5, clip.Round, clip.Polygon)
+	}},
+	{"InflatePaths64/open", func(s, c clip.Paths64, sd, cd clip.PathsD) any {
+		return clip.InflatePaths64(c, 2, clip.Square, clip.Butt)
+	}},
 	{"ClipperOffset object", func(s, c clip.Paths64, sd, cd clip.PathsD) any {
 		co := clip.NewClipperOffset(2, 0.25, false, false)
 		co.AddPaths(s, clip.Miter, clip.Polygon)
@@ -52,11 +54,17 @@ var raceOps = []opFn{
 		co.Execute64(-1.5, &sol)
 		return sol
 	}},
-	{"InflatePathsD", func(s, c clip.Paths64, sd, cd clip.PathsD) any { return clip.InflatePathsD(sd, 1.25, clip.Bevel, clip.Polygon) }},
+	{"InflatePathsD", func(s, c clip.Paths64, sd, cd clip.PathsD) any {
+		return clip.InflatePathsD(sd, 1.25, clip.Bevel, clip.Polygon)
+	}},
 	{"MinkowskiSum64", func(s, c clip.Paths64, sd, cd clip.PathsD) any { return clip.MinkowskiSum64(c[0], s[0], true) }},
 	{"MinkowskiDiffD", func(s, c clip.Paths64, sd, cd clip.PathsD) any { return clip.MinkowskiDiffD(cd[0], sd[0], false) }},
-	{"RectClipPaths64", func(s, c clip.Paths64, sd, cd clip.PathsD) any { return clip.RectClipPaths64(clip.NewRect64(3, 3, 40, 30), s) }},
-	{"RectClipLinesPaths64", func(s, c clip.Paths64, sd, cd clip.PathsD) any { return clip.RectClipLinesPaths64(clip.NewRect64(3, 3, 40, 30), s) }},
+	{"RectClipPaths64", func(s, c clip.Paths64, sd, cd clip.PathsD) any {
+		return clip.RectClipPaths64(clip.NewRect64(3, 3, 40, 30), s)
+	}},
+	{"RectClipLinesPaths64", func(s, c clip.Paths64, sd, cd clip.PathsD) any {
+		return clip.RectClipLinesPaths64(clip.NewRect64(3, 3, 40, 30), s)
+	}},
 	{"RectClip64 object", func(s, c clip.Paths64, sd, cd clip.PathsD) any {
 		rc := clip.NewRectClip64(clip.NewRect64(5, 5, 25, 45))
 		return []clip.Paths64{rc.Execute(s), rc.Execute(c)}
